@@ -132,6 +132,48 @@ def handle (toks : List String) : String :=
   | op :: rest => (handleP op).run' { toks := rest.toArray }
   | [] => "ERR bad-op"
 
+/-! ## microdata -/
+
+def pConv : P (Conv Float) := do
+  match (← nxt) with
+  | "b" => return .bool
+  | "r" => do let a ← nF; let b ← nF; let p ← nN; return .real a b p
+  | "i" => do let a ← nF; let b ← nF; return .int a b
+  | "t" => do let a ← nF; let b ← nF; return .timestamp a b
+  | _ => do
+      let n ← nN; let vm ← rep n (pStr <$> nxt)
+      let k ← nN; let safe ← rep k nN
+      return .string vm safe
+
+def pDraw (s : String) : Draw Float :=
+  if s.startsWith "u" then .unit (pF (s.drop 1).toString) else .int (s.drop 1).toString.toNat!
+
+def sCell : Cell Float × Float → String
+  | (.null, f) => s!"N:{sF f}"
+  | (.bool b, f) => s!"b{if b then 1 else 0}:{sF f}"
+  | (.int i, f) => s!"i{i}:{sF f}"
+  | (.real x, f) => s!"f{sF x}:{sF f}"
+  | (.ts t, f) => s!"t{t}:{sF f}"
+  | (.str x, f) => s!"s{String.join (x.toUTF8.toList.map (fun b => String.ofList (Nat.toDigits 16 (b.toNat + 256)).tail))}:{sF f}"
+
+def handleMicro (toks : List String) : List String :=
+  let main := toks.takeWhile (· ≠ "|")
+  let stream := ((toks.dropWhile (· ≠ "|")).drop 1).map pDraw
+  let p : P (List (Conv Float) × List Float × List (BCell Float)) := do
+    let ncols ← nN
+    let convs ← rep ncols pConv
+    let nulls ← rep ncols nF
+    let nb ← nN
+    let bs ← rep nb (do
+      let cnt ← nI
+      let ivs ← rep ncols (do let lo ← nF; let hi ← nF; return (⟨lo, hi⟩ : Ival Float))
+      return ({ ivs, count := cnt } : BCell Float))
+    return (convs, nulls, bs)
+  let (convs, nulls, bs) := p.run' { toks := main.toArray }
+  match (generateMicrodata realEnv convs nulls bs).run stream with
+  | .error e => ["ERR " ++ e]
+  | .ok (rows, rest) => rows.map (fun r => " ".intercalate (r.map sCell)) ++ [s!"left {rest.length}"]
+
 /-! ## forest state and multi-line requests -/
 
 def sIvs (l : List (Ival Float)) : String := " ".intercalate (l.map sI)
@@ -208,6 +250,17 @@ partial def loop (h : IO.FS.Stream) (out : IO.FS.Stream) (st : DState) : IO Unit
               for b in bs do out.putStrLn s!"{b.count} | {sIvs b.ivs}"
               out.putStrLn s!"drawn {drawn}"
           out.putStrLn "END"
+      loop h out st
+  | "micro" :: rest =>
+      for l in handleMicro rest do out.putStrLn l
+      out.putStrLn "END"
+      loop h out st
+  | "analyze" :: col =>
+      match st.forest with
+      | none => out.putStrLn "ERR no-forest"
+      | some F =>
+          let t := F.tree realEnv 8 (col.map String.toNat!)
+          out.putStrLn (" ".intercalate ((analyzeTree realEnv F.ctx 100000 t).map toString))
       loop h out st
   | "counts" :: comb =>
       match st.forest with
